@@ -245,7 +245,7 @@ class MustWrite:
 
     def is_leaf_writer(self, call):
         return (call.method in LEAF_WRITERS and call.trait is not None
-                and call.trait.endswith(IMAGE_VIEW_MUT))
+                and call.trait.rsplit("::", 1)[-1] == "ImageViewMut")
 
     def closure_writes(self, cl):
         """a closure handed to for_each(parts): does every path through it write something
